@@ -666,6 +666,9 @@ func planInlining(c *Ctx) []inlineSite {
 							ancestors[a] = true
 						}
 						ast.Inspect(host, func(m ast.Node) bool {
+							if m == ast.Node(call) {
+								return false // the call's own arguments move with it
+							}
 							if ce, isC := m.(*ast.CallExpr); isC && ce != call && !ancestors[ce] {
 								nm := calleeName(info, ce)
 								if !(nm == "builtin.append" || nm == "builtin.len" || nm == "builtin.cap" || isConversion(info, ce)) {
